@@ -42,12 +42,17 @@ struct Inner {
 #[derive(Default, Clone)]
 pub struct Stats {
     pub c: BTreeMap<&'static str, u64>,
+    /// heartbeat observed by the watchdog of `par_for`
+    pub hb: Option<std::sync::Arc<std::sync::atomic::AtomicU64>>,
 }
 
 impl Stats {
     #[inline]
     pub fn add(&mut self, k: &'static str, n: u64) {
         *self.c.entry(k).or_insert(0) += n;
+        if let Some(h) = &self.hb {
+            h.fetch_add(1, std::sync::atomic::Ordering::Relaxed);
+        }
     }
 }
 
@@ -233,6 +238,47 @@ impl Report {
     }
 }
 
+impl Report {
+    /// Called by the watchdog when a worker makes no progress: the code under
+    /// test does not terminate (or is absurdly slow) on the current work item.
+    /// Writes a generic evidence file and a replay file, prints the VIOLATION
+    /// line and ends the process with status 1.
+    pub fn abort_no_progress(&self, item: usize, secs: u64, what_item: String) -> ! {
+        let dir = verif_dir();
+        let _ = std::fs::create_dir_all(format!("{}/evidence", dir));
+        let _ = std::fs::create_dir_all(format!("{}/replays", dir));
+        let wall = self.t0.elapsed().as_secs_f64();
+        let ev = J::obj()
+            .set("property_id", J::s(self.property.clone()))
+            .set("tier", J::s(self.tier.clone()))
+            .set("seed", J::Int(self.seed))
+            .set("level", J::s("other"))
+            .set(
+                "coverage",
+                J::obj().set(
+                    "explanation",
+                    J::s(format!(
+                        "run aborted by the watchdog: no progress for {} s in work item {} ({}); the code under test does not terminate on a case of this item",
+                        secs, item, what_item
+                    )),
+                ),
+            )
+            .set("wall_s", J::Num(wall))
+            .set("violations", J::Int(1));
+        let _ = std::fs::write(format!("{}/evidence/{}.json", dir, self.property), ev.to_pretty());
+        let j = J::obj()
+            .set("property", J::s(self.property.clone()))
+            .set("what", J::s("no-progress"))
+            .set("detail", J::s(format!("no progress for {} s in work item {}: {}", secs, item, what_item)))
+            .set("case", J::obj().set("engine", J::s("hang")).set("tier", J::s(self.tier.clone())).set("item", J::i(item as i64)).set("item_desc", J::s(what_item.clone())));
+        let rp = format!("{}/replays/{}-hang-{}.json", dir, self.property, item);
+        let _ = std::fs::write(&rp, j.to_pretty());
+        println!("VIOLATION property={} replay={}", self.property, rp);
+        println!("  what=no-progress the code under test made no progress for {} s in work item {} ({})", secs, item, what_item);
+        std::process::exit(1);
+    }
+}
+
 pub fn fnv(b: &[u8]) -> u64 {
     let mut h = 0xcbf29ce484222325u64;
     for &x in b {
@@ -302,19 +348,67 @@ pub fn par_for<F>(rep: &Report, n: usize, f: F)
 where
     F: Fn(usize, &mut Stats) + Sync,
 {
-    let next = std::sync::atomic::AtomicUsize::new(0);
+    par_for_desc(rep, n, &|i| format!("item {}", i), f)
+}
+
+pub fn par_for_desc<F>(rep: &Report, n: usize, desc: &(dyn Fn(usize) -> String + Sync), f: F)
+where
+    F: Fn(usize, &mut Stats) + Sync,
+{
+    use std::sync::atomic::{AtomicBool, AtomicU64, AtomicUsize, Ordering};
+    use std::sync::Arc;
+    let next = AtomicUsize::new(0);
     let threads = std::thread::available_parallelism().map(|x| x.get()).unwrap_or(4).min(32);
-    let threads = std::env::var("VERIF_THREADS").ok().and_then(|s| s.parse().ok()).unwrap_or(threads);
+    let threads: usize = std::env::var("VERIF_THREADS").ok().and_then(|s| s.parse().ok()).unwrap_or(threads);
+    let hang_secs: u64 = std::env::var("VERIF_HANG_SECS").ok().and_then(|s| s.parse().ok()).unwrap_or(90);
+    let hbs: Vec<Arc<AtomicU64>> = (0..threads).map(|_| Arc::new(AtomicU64::new(0))).collect();
+    let cur: Vec<AtomicUsize> = (0..threads).map(|_| AtomicUsize::new(usize::MAX)).collect();
+    let done = AtomicBool::new(false);
     std::thread::scope(|s| {
-        for _ in 0..threads {
-            s.spawn(|| {
+        // watchdog
+        s.spawn(|| {
+            let mut last: Vec<u64> = vec![0; threads];
+            let mut stalled: Vec<u64> = vec![0; threads];
+            while !done.load(Ordering::Relaxed) {
+                for _ in 0..10 {
+                    std::thread::sleep(std::time::Duration::from_millis(100));
+                    if done.load(Ordering::Relaxed) {
+                        return;
+                    }
+                }
+                for t in 0..threads {
+                    let item = cur[t].load(Ordering::Relaxed);
+                    let h = hbs[t].load(Ordering::Relaxed);
+                    if item != usize::MAX && h == last[t] {
+                        stalled[t] += 1;
+                        if stalled[t] >= hang_secs {
+                            rep.abort_no_progress(item, stalled[t], desc(item));
+                        }
+                    } else {
+                        stalled[t] = 0;
+                    }
+                    last[t] = h;
+                }
+            }
+        });
+        let mut handles = vec![];
+        for t in 0..threads {
+            let hb = hbs[t].clone();
+            let cur = &cur;
+            let next = &next;
+            let f = &f;
+            handles.push(s.spawn(move || {
                 let mut st = Stats::default();
+                st.hb = Some(hb);
                 loop {
-                    let i = next.fetch_add(1, std::sync::atomic::Ordering::Relaxed);
+                    let i = next.fetch_add(1, Ordering::Relaxed);
                     if i >= n {
                         break;
                     }
+                    cur[t].store(i, Ordering::Relaxed);
+                    st.add("work_items_done", 1);
                     let r = std::panic::catch_unwind(std::panic::AssertUnwindSafe(|| f(i, &mut st)));
+                    cur[t].store(usize::MAX, Ordering::Relaxed);
                     if let Err(p) = r {
                         rep.machinery(format!(
                             "harness panic in work item {}: {}",
@@ -324,8 +418,12 @@ where
                     }
                 }
                 rep.merge(&st);
-            });
+            }));
         }
+        for h in handles {
+            let _ = h.join();
+        }
+        done.store(true, Ordering::Relaxed);
     });
 }
 
